@@ -20,7 +20,7 @@ def distances(rep, M, rid):
     from .. import symrules as _SRm
     c10.r10_1(rep, M, rid)
     c10.r10_5(rep, M, rid)
-    _SRm.module_state(rep, M, rid)
+    _SRm.module_state(rep, M, rid, _SRm.GEOMETRY_SIDE)
 
 
 def frames(rep, M, rid):
@@ -28,30 +28,35 @@ def frames(rep, M, rid):
     c20.r20_5(rep, M, rid)
 
 
-def normal_form(rep, M, rid):
+def normal_form(rep, M, rid, ranking=True):
+    """ranking=False: only the consistency of letters / positions / sets is needed by the borrowing property, not *which* of the equivalent
+    candidates is chosen (canonical order of the ranking, id construction)"""
     from . import c05, c06, c07
     from .. import symrules as SR
-    c06.r06_2(rep, M, rid)
-    c06.r06_3(rep, M, rid)
-    for k, v in sorted(c05.first_wins_guard(M).items()):
-        if v:
-            rep.ok(rid, f"_find_wyckoff_ground_state: {k}")
-        else:
-            rep.violation(rid, f"_find_wyckoff_ground_state: {k}", "candidate construction / selection is not (identity first, table order, every candidate ranked, "
-                          "first of equals chosen)", M.where(SR.GS))
+    if ranking:
+        c06.r06_2(rep, M, rid)
+        c06.r06_3(rep, M, rid)
+        for k, v in sorted(c05.first_wins_guard(M).items()):
+            if v:
+                rep.ok(rid, f"_find_wyckoff_ground_state: {k}")
+            else:
+                rep.violation(rid, f"_find_wyckoff_ground_state: {k}", "candidate construction / selection is not (identity first, table order, every candidate ranked, "
+                              "first of equals chosen)", M.where(SR.GS))
     c07.r07_2(rep, M, rid)
-    c07.r07_3(rep, M, rid)
+    c07.r07_3(rep, M, rid, representative=not ranking)
     SR.index_spaces(rep, M, rid)
     SR.orbit_source(rep, M, rid)
 
 
-def spglib_boundary(rep, M, rid):
+def spglib_boundary(rep, M, rid, back=True, order=False):
     """what goes into spglib is the analysed structure unmodified (cell, scaled positions, numbers of one object), the analyzer's tolerance
     reaches it, and what comes back (std_lattice, std_positions, std_types) is used without a change of convention"""
     from . import c05
     from .. import symrules as SR
-    c05.r05_5(rep, M, rid)
-    c05.r05_5b(rep, M, rid)
+    c05.r05_5(rep, M, rid, order_matters=order)
+    if back:
+        # how the standardised lattice is turned into a system matters only where the geometry of the returned cells is observed
+        c05.r05_5b(rep, M, rid)
     SR.tolerance_reaches_spglib(rep, M, rid)
 
 
@@ -65,3 +70,12 @@ def normalizer_tables(rep, T, rid, perm=True):
     TO.norm_metric(rep, T, rid)
     if perm:
         TO.norm_perm(rep, T, rid)
+
+
+def dimensionality_first_evaluation(rep, M, rid):
+    """the part of get_dimensionality that a caller with a precomputed 1x matrix skips: the 1x minimum-image evaluation (wrapped positions,
+    cutoff, cell of the same object). Only this part can make the shortcut of a Cluster differ from the direct evaluation of its atoms -
+    everything after it is shared by both."""
+    c09.r09_1(rep, M, rid)
+    c09.r09_2(rep, M, rid, only_first=True)
+    c09.r09_6(rep, M, rid, only_first=True)
